@@ -70,7 +70,7 @@ def gen(rng, tier, i):
             elif r < 0.68:
                 ops.append('%s%s %s %d' % (act, rng.choice(('cov', 'covf')), s, rng.randint(1, 3))); used_cov = True
             elif r < 0.72 and act == '' and not used_itv:
-                ops.append('itv %s' % s); used_itv = True
+                ops.append(('itv %s' if rng.random() < 0.6 else 'itve %s') % s); used_itv = True
             elif r < 0.76 and (act, s) not in cyc:
                 ops.append('%sdrop %s' % (act, s))
             elif r < 0.82:
@@ -122,7 +122,7 @@ def build(t):
         if len(cur) + len(o) > 900: cmds.append(cur); cur = o
         else: cur += ';' + o
     cmds.append(cur)
-    used_itv = any(o == 'itv' or o.startswith('itv ') for o in ops)
+    used_itv = any(o.startswith('itv ') or o.startswith('itve ') for o in ops)
     used_cov = any(' cov' in (' ' + o) for o in ops)
     cyc = [c for c in t['cyc'] if any(o.startswith('%scyc %s' % (c[0], c[1])) for o in ops)]
     objslots = [s_ for s_ in t['objslots'] if any(o.startswith('mk %s obj' % s_) for o in ops)]
